@@ -98,18 +98,27 @@ fn nested_one_of() -> Value {
 }
 
 fn unsat_members(g: &mut G) -> Vec<Value> {
-    // required-but-forbidden (third form) yields a permissive type: known finding KF-018
-    let k = g.below(3);
-    let k = if k == 2 {
-        gen::excluded("allof-required-but-forbidden", 1);
-        g.below(2)
+    // a required member that is *declared nowhere* and forbidden by a closed sibling
+    // yields a permissive type (known finding KF-018): avoided; the declared form is kept
+    let k = g.below(4);
+    let k = if k == 3 {
+        gen::excluded("allof-undeclared-required-but-forbidden", 1);
+        2
     } else {
         k
     };
     match k {
         0 => vec![object_member(g), json!({"type": "string"})],
         1 => vec![json!({"type": "object", "properties": {"e": {"type": "string", "enum": ["x"]}}, "required": ["e"]}), json!({"type": "object", "properties": {"e": {"type": "string", "enum": ["y"]}}})],
-        _ => vec![json!({"type": "object", "properties": {"a": {"type": "integer"}}, "required": ["a", "q"]}), json!({"type": "object", "properties": {"a": {"type": "integer"}}, "additionalProperties": false})],
+        _ => {
+            // the sibling is closed and does not know the required, declared member
+            let closed = if g.chance(1, 2) { json!({"$ref": "#/definitions/Base"}) } else { json!({"type": "object", "properties": {"a": {"type": "integer"}}, "additionalProperties": false}) };
+            let mut v = vec![closed, json!({"type": "object", "properties": {"b": {"type": "string"}}, "required": ["b"]})];
+            if g.chance(1, 2) {
+                v.reverse();
+            }
+            v
+        }
     }
 }
 
@@ -146,8 +155,9 @@ pub fn build_doc(members: &[Value], base: &Value) -> (Value, usize) {
 }
 
 pub fn gen_c09_case(g: &mut G) -> Value {
-    let base = object_member(g);
-    let unsat = g.chance(1, 6);
+    let unsat = g.chance(1, 5);
+    // (in unsatisfiable cases Base is a closed object over `a`, so that a reference to it can play the closed sibling)
+    let base = if unsat { json!({"type": "object", "properties": {"a": {"type": "integer"}}, "required": ["a"], "additionalProperties": false}) } else { object_member(g) };
     let members: Vec<Value> = if unsat {
         unsat_members(g)
     } else {
@@ -260,6 +270,7 @@ impl Property for C09 {
                 && m.get("properties").map(|p| p.as_object().map(|p| p.iter().all(|(k, v)| pool.iter().any(|(n, s)| n == k && (s == v || (k == "a" && v == &json!({"type": "number"})) || (k == "b" && v == &json!({"type": "string", "maxLength": 20})) || (k == "e" && v.get("enum").and_then(|e| e.as_array()).map(|e| !e.is_empty() && e.iter().all(|x| ["x", "y", "z"].contains(&x.as_str().unwrap_or("")))).unwrap_or(false) && v.get("type") == Some(&json!("string"))))) || ((k == "p1" || k == "p2") && (v == &json!({"type": "integer"}) || v == &json!({"type": "string"}))))).unwrap_or(false)).unwrap_or(true)
                 && m.get("required").map(|r| r.as_array().map(|r| r.iter().all(|x| x.is_string())).unwrap_or(false)).unwrap_or(true)
                 && m.get("additionalProperties").map(|a| a.is_boolean() || a == &json!({"type": "integer"})).unwrap_or(true)
+                && m.get("required").and_then(|r| r.as_array()).map(|r| r.iter().all(|q| q == "a" || m.get("properties").and_then(|p| p.get(q.as_str().unwrap_or(""))).is_some())).unwrap_or(true)
         };
         obj_ok(&c["base"])
             && members.iter().all(|m| {
